@@ -31,6 +31,21 @@ pub struct AppLog {
     pub cancelled_accepts: u64,
 }
 
+thread_local! {
+    /// pause (ms) the application's accept / receive loops make before every call (0 = none):
+    /// set per run by the script engine; with a pause, items arrive while no call is pending
+    /// and are picked up from the hand-off queues by the next call
+    static APP_PACE_MS: std::cell::Cell<u64> = const { std::cell::Cell::new(0) };
+}
+
+pub fn set_app_pace_ms(ms: u64) {
+    APP_PACE_MS.with(|p| p.set(ms));
+}
+
+fn app_pace() -> Duration {
+    Duration::from_millis(APP_PACE_MS.with(|p| p.get()))
+}
+
 pub struct App {
     pub conn: Connection,
     pub log: Arc<Mutex<AppLog>>,
@@ -63,7 +78,11 @@ impl App {
     fn spawn_uni(&mut self) {
         let (conn, log) = (self.conn.clone(), self.log.clone());
         self.uni_task = Some(tokio::spawn(async move {
+            let pace = app_pace();
             loop {
+                if !pace.is_zero() {
+                    tokio::time::sleep(pace).await;
+                }
                 match conn.accept_uni().await {
                     Ok(mut recv) => {
                         let id = recv.id().into_u64();
@@ -92,7 +111,11 @@ impl App {
     fn spawn_bi(&mut self) {
         let (conn, log) = (self.conn.clone(), self.log.clone());
         self.bi_task = Some(tokio::spawn(async move {
+            let pace = app_pace();
             loop {
+                if !pace.is_zero() {
+                    tokio::time::sleep(pace).await;
+                }
                 match conn.accept_bi().await {
                     Ok((send, mut recv)) => {
                         let id = recv.id().into_u64();
@@ -122,7 +145,11 @@ impl App {
     fn spawn_dg(&mut self) {
         let (conn, log) = (self.conn.clone(), self.log.clone());
         self.dg_task = Some(tokio::spawn(async move {
+            let pace = app_pace();
             loop {
+                if !pace.is_zero() {
+                    tokio::time::sleep(pace).await;
+                }
                 match conn.receive_datagram().await {
                     Ok(d) => log.lock().unwrap().datagrams.push(d.payload().to_vec()),
                     Err(e) => {
